@@ -487,7 +487,9 @@ func scnPipelineWorld(prop string, level int) scenarioFn {
 		}
 		// the whole history is shifted so that the one-minute cleanup ticks fall at varying
 		// phases relative to the sessions (each session's halves stay < 60 s apart)
-		offset := []int{0, 0, 20000, 55000, 100000}[rc.Spec.Choose(5, "offset")]
+		// (some start a second or two before a tick, so that the tick falls inside the history
+		// with the daemon already up for one, two or three minutes)
+		offset := []int{0, 0, 20000, 55000, 100000, 59000, 118500, 178000}[rc.Spec.Choose(8, "offset")]
 		sshdTL, auditTL := buildTimelines(h, offset)
 		p := newPipeline(rc, level, h, sshdTL, auditTL)
 		if level == 3 {
